@@ -159,11 +159,15 @@ class StreamingHandler(AsyncCallbackHandler, AsyncIterator):
                 self.completion += chunk
 
                 # Check if the completion contains one of the stop chunks
-                for stop_chunk in self.stop:
-                    if stop_chunk in self.completion:
-                        # Make sure the stop chunk is not included
-                        self.completion = self.completion.split(stop_chunk)[0]
-                        stop_found = True
+                stop_positions = [
+                    self.completion.find(stop_chunk)
+                    for stop_chunk in self.stop
+                    if stop_chunk and stop_chunk in self.completion
+                ]
+                if stop_positions:
+                    # Make sure that nothing starting with the first stop chunk is included
+                    self.completion = self.completion[: min(stop_positions)]
+                    stop_found = True
 
                 if stop_found:
                     # The suffix, if any, is not part of the completion either.
